@@ -2,9 +2,10 @@
 package eng
 
 import (
-	_ "aaverif/eng/imports"
 	_ "aaverif/eng/atest"
 	_ "aaverif/eng/engsim"
 	_ "aaverif/eng/hist"
+	_ "aaverif/eng/imports"
 	_ "aaverif/eng/outdir"
+	_ "aaverif/eng/sched"
 )
